@@ -125,6 +125,7 @@ func extractC01(c *ctxT) {
 
 	// ---- TryAttestation: requiredPower := types.AttestationVotesPowerThreshold.Mul(totalPower).Quo(sdkmath.NewInt(100)); LT
 	var votesDiv int64 = -1
+	reqExpr := ".unknown"
 	cmp := "other"
 	totalFromStore := false
 	sumsFoundOnly := false
@@ -139,6 +140,7 @@ func extractC01(c *ctxT) {
 						if m := reReq.FindStringSubmatch(r); m != nil {
 							votesDiv, _ = strconv.ParseInt(m[1], 10, 64)
 						}
+						reqExpr = c.qexpr(x.Rhs[0], map[string]string{"totalPower": ".total"}, 0)
 					}
 					if l == "totalPower" && r == "k.GetLastTotalPower(ctx)" {
 						totalFromStore = true
@@ -168,6 +170,94 @@ func extractC01(c *ctxT) {
 			return true
 		})
 	}
+
+	// ---- TryAttestation: what happens, inside the vote loop, once the power is not below the bar (top-level statements of
+	// the loop body after the `continue` guard): the last observed nonce is set unconditionally, the attestation is marked
+	// observed and stored, the handler runs through processAttestation, and the loop is left with `break`.
+	obsSetsLast, obsMarks, obsProcess, obsBreaks := false, false, false, false
+	if fd := c.findFunc(c01Keeper, "Keeper", "TryAttestation"); fd != nil && fd.Body != nil {
+		for _, st := range fd.Body.List {
+			rs, ok := st.(*ast.RangeStmt)
+			if !ok || rs.Body == nil {
+				continue
+			}
+			after := false
+			marked := false
+			for i, b := range rs.Body.List {
+				if x, ok := b.(*ast.IfStmt); ok && strings.HasPrefix(c.src(x.Cond), "attestationPower.") {
+					after = true
+					continue
+				}
+				if !after {
+					continue
+				}
+				switch x := b.(type) {
+				case *ast.ExprStmt:
+					switch c.src(x.X) {
+					case "k.SetLastObservedEventNonce(ctx, claim.GetEventNonce())":
+						obsSetsLast = true
+					case "k.SetAttestation(ctx, claim.GetEventNonce(), claim.ClaimHash(), att)":
+						if marked {
+							obsMarks = true
+						}
+					}
+				case *ast.AssignStmt:
+					if len(x.Lhs) == 1 && len(x.Rhs) == 1 && c.src(x.Lhs[0]) == "att.Observed" && c.src(x.Rhs[0]) == "true" {
+						marked = true
+					}
+					if len(x.Rhs) == 1 && c.src(x.Rhs[0]) == "k.processAttestation(ctx, claim)" {
+						obsProcess = true
+					}
+				case *ast.BranchStmt:
+					if x.Tok == token.BREAK && i == len(rs.Body.List)-1 {
+						obsBreaks = true
+					}
+				}
+			}
+		}
+	}
+	// ---- where the summed powers come from: TryAttestation adds `oracle.GetPower()` of the found oracle; SetLastTotalPower
+	// sums `oracle.GetPower()` over GetAllOracles(ctx, true) (online only) and stores the sum
+	tallyGetPower, totalOnlineGetPower := false, false
+	if fd := c.findFunc(c01Keeper, "Keeper", "TryAttestation"); fd != nil && fd.Body != nil {
+		body := strings.Join(strings.Fields(stripComments(c.src(fd.Body))), " ")
+		tallyGetPower = strings.Contains(body, "oracle, found := k.GetOracle(ctx, oracleAddr)") &&
+			strings.Contains(body, "oraclePower := oracle.GetPower() attestationPower = attestationPower.Add(oraclePower)")
+	}
+	if fd := c.findFunc(c01Keeper, "Keeper", "SetLastTotalPower"); fd != nil && fd.Body != nil {
+		body := strings.Join(strings.Fields(stripComments(c.src(fd.Body))), " ")
+		totalOnlineGetPower = strings.HasPrefix(body, "{ oracles := k.GetAllOracles(ctx, true) totalPower := sdkmath.ZeroInt() for _, oracle := range oracles { totalPower = totalPower.Add(oracle.GetPower()) }") &&
+			strings.Contains(body, "store.Set(types.LastTotalPowerKey, k.cdc.MustMarshal(&sdk.IntProto{Int: totalPower}))")
+	}
+
+	// ---- AttestationHandler: the three deferred claim types are only parked (SavePendingExecuteClaim), nothing else runs
+	parksOnly := false
+	if fd := c.findFunc(c01Keeper, "Keeper", "AttestationHandler"); fd != nil && fd.Body != nil {
+		ast.Inspect(fd.Body, func(n ast.Node) bool {
+			cc, ok := n.(*ast.CaseClause)
+			if !ok {
+				return true
+			}
+			var ts []string
+			for _, e := range cc.List {
+				ts = append(ts, c.src(e))
+			}
+			sort.Strings(ts)
+			if strings.Join(ts, ",") == "*types.MsgBridgeCallClaim,*types.MsgBridgeCallResultClaim,*types.MsgSendToFxClaim" {
+				if len(cc.Body) == 1 {
+					if es, ok := cc.Body[0].(*ast.ExprStmt); ok && c.src(es.X) == "k.SavePendingExecuteClaim(ctx, externalClaim)" {
+						parksOnly = true
+					}
+				}
+			}
+			return true
+		})
+	}
+
+	if m := regexp.MustCompile(`^\(\.quo .* \(\.lit (\d+)\)\)$`).FindStringSubmatch(reqExpr); m != nil && votesDiv < 0 {
+		votesDiv, _ = strconv.ParseInt(m[1], 10, 64) // the outermost operation divides by a literal
+	}
+	facts["C01.requiredExpr"] = reqExpr
 
 	// ---- Attest: contiguity guard and tally condition
 	contig, tallyNotObs, tallyNext, tallyCalled := false, false, false, false
@@ -223,6 +313,29 @@ func extractC01(c *ctxT) {
 		}
 	}
 
+	// ---- EditBridger: the index entry of the OLD bridger is deleted (DelOracleAddrByBridgerAddr(ctx, oracle.GetBridger()))
+	// before the record's bridger is overwritten, and the new entry is set afterwards
+	editDelOldFirst := false
+	if fd := c.findFunc(c01Keeper, "MsgServer", "EditBridger"); fd != nil && fd.Body != nil {
+		delIdx, asgIdx, setIdx := -1, -1, -1
+		for i, st := range fd.Body.List {
+			switch x := st.(type) {
+			case *ast.ExprStmt:
+				switch c.src(x.X) {
+				case "s.DelOracleAddrByBridgerAddr(ctx, oracle.GetBridger())":
+					delIdx = i
+				case "s.SetOracleAddrByBridgerAddr(ctx, bridgerAddr, oracleAddr)":
+					setIdx = i
+				}
+			case *ast.AssignStmt:
+				if len(x.Lhs) == 1 && c.src(x.Lhs[0]) == "oracle.BridgerAddress" {
+					asgIdx = i
+				}
+			}
+		}
+		editDelOldFirst = delIdx >= 0 && asgIdx > delIdx && setIdx > delIdx
+	}
+
 	// ---- UnbondedOracle deletes the per-oracle last nonce
 	unbondDel := false
 	if fd := c.findFunc(c01Keeper, "MsgServer", "UnbondedOracle"); fd != nil && fd.Body != nil {
@@ -246,6 +359,71 @@ func extractC01(c *ctxT) {
 				ubdRule = "refuseIfExists"
 			}
 		}
+	}
+
+	// ---- ExecuteClaim: look-up guard, deletion of the parked entry, and their order relative to the handlers.
+	//   execChecks : `x, found := k.GetPendingExecuteClaim(ctx, eventNonce)` followed by `if !found { return err }`
+	//   execDeletes: an unconditional top-level `k.DeletePendingExecuteClaim(ctx, eventNonce)`
+	//   execDeleteFirst: that statement precedes every top-level statement that (transitively in its own subtree) calls a
+	//                    handler (SendToFxExecuted / BridgeCallHandler / BridgeCallResultHandler)
+	execChecks, execDeletes, execDeleteFirst := false, false, false
+	var execHandlers []string
+	if fd := c.findFunc(c01Keeper, "Keeper", "ExecuteClaim"); fd != nil && fd.Body != nil {
+		delIdx, firstHandler, getIdx := -1, -1, -1
+		handlerNames := []string{"SendToFxExecuted", "BridgeCallHandler", "BridgeCallResultHandler"}
+		for i, st := range fd.Body.List {
+			switch x := st.(type) {
+			case *ast.AssignStmt:
+				if len(x.Rhs) == 1 && c.src(x.Rhs[0]) == "k.GetPendingExecuteClaim(ctx, eventNonce)" && len(x.Lhs) == 2 && c.src(x.Lhs[1]) == "found" {
+					getIdx = i
+				}
+			case *ast.IfStmt:
+				if getIdx >= 0 && i == getIdx+1 && x.Init == nil && c.src(x.Cond) == "!found" && returnsError(x.Body) {
+					execChecks = true
+				}
+			case *ast.ExprStmt:
+				if c.src(x.X) == "k.DeletePendingExecuteClaim(ctx, eventNonce)" && delIdx < 0 {
+					delIdx = i
+				}
+			}
+			for _, h := range handlerNames {
+				if callsMethod(st, h) {
+					if firstHandler < 0 {
+						firstHandler = i
+					}
+					execHandlers = append(execHandlers, h)
+				}
+			}
+		}
+		execDeletes = delIdx >= 0
+		execDeleteFirst = delIdx >= 0 && firstHandler >= 0 && delIdx < firstHandler && getIdx >= 0 && getIdx < delIdx
+		facts["C01.executeClaim"] = map[string]any{"getIdx": getIdx, "deleteIdx": delIdx, "firstHandlerIdx": firstHandler, "handlers": execHandlers}
+	}
+	// the precompile runs ExecuteClaim inside StateDB.ExecuteNativeAction and returns its error (so a handler error
+	// reverts the native action as a whole)
+	execInNative := false
+	if fd := c.findFunc("x/crosschain/precompile", "ExecuteClaimMethod", "Run"); fd != nil && fd.Body != nil {
+		ast.Inspect(fd.Body, func(n ast.Node) bool {
+			ce, ok := n.(*ast.CallExpr)
+			if !ok {
+				return true
+			}
+			se, ok := ce.Fun.(*ast.SelectorExpr)
+			if !ok || se.Sel.Name != "ExecuteNativeAction" || len(ce.Args) == 0 {
+				return true
+			}
+			fl, ok := ce.Args[len(ce.Args)-1].(*ast.FuncLit)
+			if !ok || fl.Body == nil {
+				return true
+			}
+			for _, st := range fl.Body.List {
+				if x, ok := st.(*ast.IfStmt); ok && x.Init != nil && callsMethod(x.Init, "ExecuteClaim") &&
+					c.src(x.Cond) == "err != nil" && returnsError(x.Body) {
+					execInNative = true
+				}
+			}
+			return true
+		})
 	}
 
 	// ---- SetLastTotalPower call sites
@@ -348,11 +526,15 @@ func extractC01(c *ctxT) {
 	sb.WriteString("namespace FxVerif.Gen.C01\n\n")
 	sb.WriteString("inductive Cmp where | lt | lte | other\n  deriving DecidableEq, Repr\n\n")
 	sb.WriteString("inductive UbdRule where | requireExists | refuseIfExists | none\n  deriving DecidableEq, Repr\n\n")
+	sb.WriteString("/-- where a handler recomputes the recorded total power relative to storing the oracle record -/\ninductive RefreshRule where | afterStore | beforeStore | ifPositiveAfterStore | other | none\n  deriving DecidableEq, Repr\n\n")
+	sb.WriteString("/-- integer expressions over the recorded total power and the vote threshold constant -/\ninductive QExpr where\n  | total | threshold | unknown\n  | lit (n : Nat)\n  | mul (a b : QExpr) | quo (a b : QExpr) | add (a b : QExpr) | sub (a b : QExpr)\n  deriving DecidableEq, Repr\n\n")
+	sb.WriteString("/-- value of an expression (`thr` = the threshold constant; `Quo` truncates; amounts are non-negative) -/\ndef QExpr.eval (thr total : Nat) : QExpr → Nat\n  | .total => total\n  | .threshold => thr\n  | .unknown => 0\n  | .lit n => n\n  | .mul a b => a.eval thr total * b.eval thr total\n  | .quo a b => a.eval thr total / b.eval thr total\n  | .add a b => a.eval thr total + b.eval thr total\n  | .sub a b => a.eval thr total - b.eval thr total\n\n")
 	w := func(doc, name, typ, val string) {
 		fmt.Fprintf(&sb, "/-- %s -/\ndef %s : %s := %s\n\n", doc, name, typ, val)
 	}
 	w("types.AttestationVotesPowerThreshold", "votesThreshold", "Nat", leanNat(votes))
 	w("divisor in TryAttestation: requiredPower := threshold.Mul(totalPower).Quo(NewInt(d)), totalPower := GetLastTotalPower", "votesDivisor", "Nat", leanNat(votesDiv))
+	w("TryAttestation: the right-hand side of `requiredPower := ...` (helper functions of x/crosschain/types inlined)", "requiredExpr", "QExpr", reqExpr)
 	w("TryAttestation: `if attestationPower.<cmp>(requiredPower) { continue }`", "tallyCmp", "Cmp", "."+cmp)
 	w("TryAttestation reads the total from the store (GetLastTotalPower)", "tallyTotalFromStore", "Bool", leanBool(totalFromStore))
 	w("TryAttestation skips votes of addresses that are not registered oracles (`if !found { continue }`)", "tallySkipsUnregistered", "Bool", leanBool(sumsFoundOnly))
@@ -366,10 +548,28 @@ func extractC01(c *ctxT) {
 	w("Attest calls TryAttestation at all", "tallyCalled", "Bool", leanBool(tallyCalled))
 	w("GetLastEventNonceByOracle: absent key -> lastObserved-1 (0 if lastObserved = 0); exact body shape recognised", "fallbackLastObservedMinusOne", "Bool", leanBool(fallback))
 	w("checkBridgerIsOracle: `if !oracle.Online { return err }`", "claimRequiresOnline", "Bool", leanBool(online))
+	w("EditBridger deletes the bridger-index entry of the old bridger before overwriting the record's bridger", "editBridgerDeletesOldIndexFirst", "Bool", leanBool(editDelOldFirst))
 	w("UnbondedOracle calls DelLastEventNonceByOracle", "unbondDeletesLastNonce", "Bool", leanBool(unbondDel))
 	w("UnbondedOracle and the delegate address' staking unbonding delegation: error unless one exists / ErrInvalid while one exists", "unbondUbdRule", "UbdRule", "."+ubdRule)
-	w("BondedOracle calls SetLastTotalPower", "refreshOnBond", "Bool", leanBool(sites["BondedOracle"]))
-	w("AddDelegate calls SetLastTotalPower", "refreshOnAddDelegate", "Bool", leanBool(sites["AddDelegate"]))
+	w("TryAttestation adds exactly `oracle.GetPower()` of each found voter to the attestation power", "tallyAddsGetPower", "Bool", leanBool(tallyGetPower))
+	w("SetLastTotalPower stores the sum of `GetPower()` over GetAllOracles(ctx, true) (online oracles)", "totalSumsOnlineGetPower", "Bool", leanBool(totalOnlineGetPower))
+	w("Oracle.GetPower is `DelegateAmount.Quo(sdk.DefaultPowerReduction)` (truncating)", "getPowerTruncates", "Bool", leanBool(powerOk))
+	w("TryAttestation: once the bar is reached `SetLastObservedEventNonce(claim nonce)` runs unconditionally", "observeSetsLastObserved", "Bool", leanBool(obsSetsLast))
+	w("TryAttestation: once the bar is reached `att.Observed = true` is stored with SetAttestation", "observeMarksObserved", "Bool", leanBool(obsMarks))
+	w("TryAttestation: the handler runs through processAttestation (cache context)", "observeRunsHandler", "Bool", leanBool(obsProcess))
+	w("TryAttestation: the vote loop ends with `break` once the attestation was observed", "observeBreaksLoop", "Bool", leanBool(obsBreaks))
+	w("AttestationHandler: send-to-fx / bridge-call / bridge-call-result claims are ONLY parked (SavePendingExecuteClaim)", "deferredClaimsOnlyParked", "Bool", leanBool(parksOnly))
+	w("ExecuteClaim: `_, found := GetPendingExecuteClaim(ctx, eventNonce); if !found { return err }`", "execChecksPending", "Bool", leanBool(execChecks))
+	w("ExecuteClaim has an unconditional top-level `k.DeletePendingExecuteClaim(ctx, eventNonce)`", "execDeletesPending", "Bool", leanBool(execDeletes))
+	w("ExecuteClaim: the look-up precedes the deletion, and the deletion precedes every statement that calls a handler", "execDeletesBeforeHandler", "Bool", leanBool(execDeleteFirst))
+	w("the executeClaim precompile runs ExecuteClaim inside ExecuteNativeAction and returns its error", "execErrorRevertsNativeAction", "Bool", leanBool(execInNative))
+	bondRule := c.refreshRule(c.findFunc(c01Keeper, "MsgServer", "BondedOracle"))
+	addDelRule := c.refreshRule(c.findFunc(c01Keeper, "MsgServer", "AddDelegate"))
+	facts["C01.refreshRules"] = map[string]string{"BondedOracle": bondRule, "AddDelegate": addDelRule}
+	w("BondedOracle: where SetLastTotalPower is called relative to SetOracle", "bondRefreshRule", "RefreshRule", "."+bondRule)
+	w("AddDelegate: where SetLastTotalPower is called relative to SetOracle", "addDelegateRefreshRule", "RefreshRule", "."+addDelRule)
+	w("BondedOracle calls SetLastTotalPower unconditionally after storing the oracle", "refreshOnBond", "Bool", leanBool(sites["BondedOracle"] && bondRule == "afterStore"))
+	w("AddDelegate calls SetLastTotalPower unconditionally after storing the oracle", "refreshOnAddDelegate", "Bool", leanBool(sites["AddDelegate"] && addDelRule == "afterStore"))
 	w("slashing calls SetLastTotalPower when any oracle was slashed", "refreshOnSlash", "Bool", leanBool(sites["slashing"] && slashingCond))
 	w("AddOracleSetRequest calls SetLastTotalPower", "refreshOnOracleSetRequest", "Bool", leanBool(sites["AddOracleSetRequest"]))
 	w("UpdateProposalOracles / UnbondedOracleFromProposal call SetLastTotalPower (they do not on the unchanged tree)", "refreshOnGovUpdate", "Bool", leanBool(govRefresh))
@@ -393,7 +593,11 @@ func extractC01(c *ctxT) {
 	facts["C01.claimVoterSource"] = voterSrc
 	facts["C01.claimValidateBasicBindsSigner"] = binds
 	facts["C01.guards"] = map[string]bool{"contiguity": contig, "tallyNotObserved": tallyNotObs, "tallyNextNonce": tallyNext,
-		"online": online, "unbondDeletesLastNonce": unbondDel, "fallback": fallback}
+		"online": online, "unbondDeletesLastNonce": unbondDel, "fallback": fallback,
+		"execChecksPending": execChecks, "execDeletesPending": execDeletes, "execDeletesBeforeHandler": execDeleteFirst,
+		"execErrorRevertsNativeAction": execInNative, "observeSetsLastObserved": obsSetsLast, "observeMarksObserved": obsMarks,
+		"observeRunsHandler": obsProcess, "observeBreaksLoop": obsBreaks, "deferredClaimsOnlyParked": parksOnly,
+		"tallyAddsGetPower": tallyGetPower, "totalSumsOnlineGetPower": totalOnlineGetPower}
 	for k, v := range facts {
 		c.facts[k] = v
 	}
@@ -402,3 +606,135 @@ func extractC01(c *ctxT) {
 var reLineComment = regexp.MustCompile(`(?m)//.*$`)
 
 func stripComments(s string) string { return reLineComment.ReplaceAllString(s, "") }
+
+
+// ---- the quorum formula as an expression tree (regenerated; the model evaluates it) ----------------------------------
+
+// qexpr translates a Go expression over sdkmath.Int into the Lean `QExpr` term: the threshold constant, the total, integer
+// literals, Mul / Quo / Add / Sub (and their Raw forms), and calls of single-`return` helper functions of x/crosschain/types,
+// which are inlined with their parameters bound (depth-limited).  Anything else becomes `.unknown` (evaluates to 0).
+func (c *ctxT) qexpr(e ast.Expr, env map[string]string, depth int) string {
+	if depth > 4 {
+		return ".unknown"
+	}
+	switch x := e.(type) {
+	case *ast.ParenExpr:
+		return c.qexpr(x.X, env, depth)
+	case *ast.Ident:
+		if v, ok := env[x.Name]; ok {
+			return v
+		}
+		if x.Name == "AttestationVotesPowerThreshold" {
+			return ".threshold"
+		}
+	case *ast.SelectorExpr:
+		if x.Sel.Name == "AttestationVotesPowerThreshold" {
+			return ".threshold"
+		}
+	case *ast.BasicLit:
+		if n := c.natOf(x); n >= 0 {
+			return fmt.Sprintf("(.lit %d)", n)
+		}
+	case *ast.CallExpr:
+		if n := c.natOf(x); n >= 0 { // sdkmath.NewInt(<literal>)
+			return fmt.Sprintf("(.lit %d)", n)
+		}
+		if se, ok := x.Fun.(*ast.SelectorExpr); ok && len(x.Args) == 1 {
+			op := map[string]string{"Mul": "mul", "MulRaw": "mul", "Quo": "quo", "QuoRaw": "quo", "Add": "add", "AddRaw": "add", "Sub": "sub", "SubRaw": "sub"}[se.Sel.Name]
+			if op != "" {
+				// a method of an Int value (not a package-level function such as types.F(x))
+				if id, isPkg := se.X.(*ast.Ident); !(isPkg && (id.Name == "types" || id.Name == "sdkmath" || id.Name == "math")) {
+					return fmt.Sprintf("(.%s %s %s)", op, c.qexpr(se.X, env, depth), c.qexpr(x.Args[0], env, depth))
+				}
+			}
+		}
+		// helper function of x/crosschain/types: `func F(a sdkmath.Int, ...) sdkmath.Int { return <expr> }`
+		name := ""
+		switch f := x.Fun.(type) {
+		case *ast.Ident:
+			name = f.Name
+		case *ast.SelectorExpr:
+			if id, ok := f.X.(*ast.Ident); ok && id.Name == "types" {
+				name = f.Sel.Name
+			}
+		}
+		if name != "" {
+			for _, rel := range []string{c01Types, c01Keeper} {
+				fd := c.findFunc(rel, "", name)
+				if fd == nil || fd.Body == nil || len(fd.Body.List) != 1 || fd.Type.Params == nil {
+					continue
+				}
+				rs, ok := fd.Body.List[0].(*ast.ReturnStmt)
+				if !ok || len(rs.Results) != 1 {
+					continue
+				}
+				var params []string
+				for _, f := range fd.Type.Params.List {
+					for _, n := range f.Names {
+						params = append(params, n.Name)
+					}
+				}
+				if len(params) != len(x.Args) {
+					continue
+				}
+				env2 := map[string]string{}
+				for i, pn := range params {
+					env2[pn] = c.qexpr(x.Args[i], env, depth+1)
+				}
+				return c.qexpr(rs.Results[0], env2, depth+1)
+			}
+		}
+	}
+	return ".unknown"
+}
+
+// refreshRule classifies where a message-server method recomputes the recorded total power relative to storing the oracle:
+//   afterStore           : unconditional top-level `s.SetLastTotalPower(ctx)` after the top-level `s.SetOracle(ctx, oracle)`
+//   beforeStore          : unconditional top-level call, but before the oracle record is stored
+//   ifPositiveAfterStore : inside a top-level `if delegateCoin.IsPositive() { ... }` after the store
+//   other                : some other guarded / nested call;   none: no call
+func (c *ctxT) refreshRule(fd *ast.FuncDecl) string {
+	if fd == nil || fd.Body == nil {
+		return "none"
+	}
+	storeIdx, rule := -1, "none"
+	for i, st := range fd.Body.List {
+		switch x := st.(type) {
+		case *ast.ExprStmt:
+			switch c.src(x.X) {
+			case "s.SetOracle(ctx, oracle)":
+				if storeIdx < 0 {
+					storeIdx = i
+				}
+			case "s.SetLastTotalPower(ctx)":
+				if rule == "none" {
+					if storeIdx >= 0 {
+						rule = "afterStore"
+					} else {
+						rule = "beforeStore"
+					}
+				}
+			}
+		case *ast.IfStmt:
+			if callsMethod(x, "SetLastTotalPower") && rule == "none" {
+				rule = "other"
+				if x.Init == nil && x.Else == nil && c.src(x.Cond) == "delegateCoin.IsPositive()" && storeIdx >= 0 && len(x.Body.List) >= 1 {
+					all := true
+					for _, b := range x.Body.List {
+						if es, ok := b.(*ast.ExprStmt); !ok || c.src(es.X) != "s.SetLastTotalPower(ctx)" {
+							all = false
+						}
+					}
+					if all {
+						rule = "ifPositiveAfterStore"
+					}
+				}
+			}
+		default:
+			if callsMethod(st, "SetLastTotalPower") && rule == "none" {
+				rule = "other"
+			}
+		}
+	}
+	return rule
+}
